@@ -289,6 +289,23 @@ def run(ctx):
                 except Exception:  # noqa
                     pass
                 ctx.violation(mech, f"{cls}: re-serialisation differs - {d}", case)
+        if "json_default" in rp and "json_default" in rf and "dump_err" not in rp and "dump_err" not in rf:
+            dj = first_diff(rp["json_default"], rf["json_default"])
+            if dj:
+                mechj = classify_dump_diff(dj, c)
+                try:
+                    mfj = modelgen.discover_models()[c["cls"]].model_fields
+                    if any(f.alias and f.alias != a and a in c["wire"] for a, f in mfj.items()):
+                        mechj = "python_named_member_next_to_aliased_member_differs"
+                except Exception:  # noqa
+                    pass
+                ctx.violation(mechj if mechj.startswith("python_named") else "default_json_text_differs",
+                              f"{cls}: model_dump_json() with no arguments differs between the backends - {dj}", case)
+            else:
+                ctx.count("default_json_texts_compared")
+        elif ("json_default_err" in rp) != ("json_default_err" in rf) and "dump_err" not in rp and "dump_err" not in rf:
+            ctx.violation("default_json_text_differs", f"{cls}: model_dump_json() with no arguments: pydantic "
+                          f"{rp.get('json_default_err', 'ok')}, fallback {rf.get('json_default_err', 'ok')}", case)
         ep, ef = dict(rp.get("eq") or {}), dict(rf.get("eq") or {})
         if rp.get("eq_prev_case") != rf.get("eq_prev_case"):
             # the two backends do not have the same previous object of this class (one of them rejected a case in
